@@ -292,6 +292,11 @@ func cmdGuards(args []string) int {
 		{"proposal_type_prepare", func(e *guardEnv) { e.nv.pp.ht = protocol.LEAN_HELIX_PREPARE }},
 		{"proposal_hash_of_another_block", func(e *guardEnv) { e.nv.pp.hash = hashOfBody(other(e).body) }},
 		{"block_missing", func(e *guardEnv) { e.nvBk = nil }},
+		{"block_says_it_is_of_the_next_height", func(e *guardEnv) {
+			if e.nvBk != nil {
+				e.nvBk = &vBlock{height: h + 1, body: e.nvBk.body}
+			}
+		}}, // signed hash, foreign height: no consumer accepts it for h
 		// a vote with a VALID prepared proof of view tv-1 (signed by that view's leader and by the other members the adversary holds);
 		// the NEW_VIEW re-proposes the certified block: acceptable.  Then one thing wrong about the re-proposal.
 		{"proven_vote", func(e *guardEnv) { provenVote(e, h) }},
